@@ -13,11 +13,15 @@ package main
 import (
 	"fmt"
 	"go/types"
+	"regexp"
 	"sort"
 	"strings"
 )
 
 const bv64 = "(_ BitVec 64)"
+
+var byteAliasRe = regexp.MustCompile(`\bbyte\b`)
+var runeAliasRe = regexp.MustCompile(`\brune\b`)
 
 type Term struct {
 	S    string
@@ -89,6 +93,9 @@ func (r *Registry) structIndex(st *types.Struct) int {
 }
 
 func (r *Registry) sortOf(t types.Type) string {
+	if t == wideIntType {
+		return wideSort
+	}
 	switch u := t.Underlying().(type) {
 	case *types.Basic:
 		switch {
@@ -260,6 +267,8 @@ func (r *Registry) sentinelBit(name string) int {
 func typeKey(t types.Type) string {
 	s := types.TypeString(t.Underlying(), func(p *types.Package) string { return p.Name() })
 	s = strings.ReplaceAll(s, "interface{}", "any")
+	s = byteAliasRe.ReplaceAllString(s, "uint8") // byte and uint8 (rune and int32) are one type: one memory
+	s = runeAliasRe.ReplaceAllString(s, "int32")
 	if len(s) > 60 {
 		// long struct/interface literals: hash
 		h := uint32(2166136261)
@@ -351,6 +360,14 @@ func sortedKeys(m map[string]string) []string {
 	sort.Strings(ks)
 	return ks
 }
+
+// wideIntType: 128-bit unsigned ghost integers (the allocation counter): wide enough that
+// k*len never wraps for 62-bit lengths, and pure bit-vector arithmetic for the solvers.
+var wideIntType = types.NewNamed(types.NewTypeName(0, nil, "Wide", nil), types.Typ[types.Uint64], nil)
+
+const wideSort = "(_ BitVec 128)"
+
+func wideLit(n int64) string { return fmt.Sprintf("(_ bv%d 128)", n) }
 
 // mathIntType is the type of ghost mathematical integers (heapVer(), allocBytes(), ufun "Int" parameters).
 var mathIntType = types.NewNamed(types.NewTypeName(0, nil, "Int", nil), types.Typ[types.UnsafePointer], nil)
